@@ -28,6 +28,7 @@ import absorb
 import aicheck
 import hintclasses
 import roots
+import structure as st
 import vlib
 import c15
 
@@ -153,22 +154,25 @@ def analyse(rep, ob, sets, rules=("R1", "R2", "R3", "R4", "R5"), prefix=""):
                     samples.append({"set": s, "class": cname, "entry": root, "abstract_result": j["partitions"]})
             elif "R3" in rules:
                 # R3 structure
-                eqs = [p["data"] for p in j["probes"] if p["what"] == "array_eq" and p["data"]["path"].endswith("verify_internal")]
-                ok = len(eqs) == 1 and eqs[0]["len_a"] == str(lam4) and eqs[0]["len_b"] == str(lam4) and {eqs[0]["src_a"].split(".")[-1], eqs[0]["src_b"].split(".")[-1]} == {"c_tilde", "c_tilde_p"}
+                eqs = [p["data"] for p in j["probes"] if p["what"] == "array_eq" and "verify_internal" in p["data"]["path"]]
+                ok = len(eqs) == 1 and eqs[0]["len_a"] == str(lam4) and eqs[0]["len_b"] == str(lam4) and eqs[0]["src_a"] != eqs[0]["src_b"]
                 ob(ok, "R3:full-hash-compare:%s" % root, {"rule": "R3 the decision compares all lambda/4 bytes of c-tilde with the recomputed hash", "entry": j["root"], "set": s, "comparisons": eqs})
-                xs = [x for x in absorb.sites(j, "xof") if x["path"].endswith("verify_internal>h256_xof")]
-                ch = [x for x in xs if len(x["items"]) == 2 and x["items"][0]["len"] == [64, 64] and x["items"][0]["src"].endswith(".mu")]
+                roles = st.hash_roles(j, "pk.tr")
+                ch = roles["commit"]
                 okc = False
                 rd = []
                 if len(ch) == 1:
                     w1len = 32 * P["k"] * bitlen((P["q"] - 1) // (2 * P["gamma2"]) - 1)
                     rd = absorb.reads(j, ch[0]["id"])
-                    okc = ch[0]["items"][1]["len"] == [w1len, w1len] and len(rd) == 1 and rd[0]["len"] == str(lam4) and rd[0]["off"] == "0..0" and rd[0]["dest"].endswith(".c_tilde_p")
-                ob(okc, "R3:commitment-hash:%s" % root, {"rule": "R3 c-tilde' = first lambda/4 bytes of H(mu || w1Encode(w1'))", "entry": j["root"], "set": s,
+                    okc = ch[0]["items"][1]["len"] == [w1len, w1len] and len(rd) == 1 and rd[0]["len"] == str(lam4) and rd[0]["off"] == "0..0" and rd[0]["dest_start"] == "0" \
+                        and len(eqs) == 1 and rd[0]["dest"] in (eqs[0]["src_a"], eqs[0]["src_b"])
+                ob(okc, "R3:commitment-hash:%s" % root, {"rule": "R3 c-tilde' = first lambda/4 bytes of H(mu || w1Encode(w1')), and it is one side of the final comparison", "entry": j["root"], "set": s,
                                                           "sites": [x["rendered"][:160] for x in ch], "reads": rd})
-                sib = [x for x in absorb.sites(j, "xof") if x["path"].endswith("verify_internal>sample_in_ball>h256_xof")]
-                oks = len(sib) == 1 and len(sib[0]["items"]) == 1 and sib[0]["items"][0]["len"] == [lam4, lam4] and sib[0]["items"][0]["src"].endswith(".c_tilde")
-                ob(oks, "R3:challenge-from-whole-ctilde:%s" % root, {"rule": "R3 SampleInBall absorbs the whole decoded c-tilde", "entry": j["root"], "set": s, "sites": [x["rendered"][:160] for x in sib]})
+                sib = roles["sample_in_ball"]
+                oks = len(sib) == 1 and len(sib[0]["items"]) == 1 and sib[0]["items"][0]["len"] == [lam4, lam4] and str(sib[0]["items"][0].get("tag", "")).endswith("[0..%d]" % lam4) \
+                    and str(sib[0]["items"][0].get("tag", "")).startswith("in.")
+                ob(oks, "R3:challenge-from-whole-ctilde:%s" % root, {"rule": "R3 SampleInBall absorbs the whole decoded c-tilde (exact copy of the first lambda/4 signature bytes)", "entry": j["root"], "set": s,
+                                                                     "sites": [x["rendered"][:160] for x in sib], "tags": [x["items"][0].get("tag") for x in sib]})
                 uh = sum(v for c, v in j["calls"].items() if c == "high_low::use_hint")
                 ob(uh == 256 * P["k"], "R3:use-hint-all:%s" % root, {"rule": "R3 UseHint is applied to all 256*k coefficients", "entry": j["root"], "set": s, "use_hint_calls": uh})
         # R4: obligations on verify paths
